@@ -11,7 +11,7 @@ ID = 'C11'
 CASE_TYPE = 'C11.case'
 EXTRA_IMPORTS = (dispenv.DISP_IMPORTS + ce.CLIENT_IMPORTS + re_.RETRY_IMPORTS
                  + 'From PJ Require Import Model.EndToEnd Corr.DispOk Corr.C07 Corr.C08.\n')
-RULE = ('the request corpora of C01, C02, C03 and C12 (texts x configurations) dispatched through BOTH dispatchers; the scripted '
+RULE = ('the request corpora of C01, C02, C03 and C12 (texts x configurations) dispatched through BOTH dispatchers (for a third of them also through the asynchronous dispatcher serving plain, non-coroutine functions); the scripted '
         'transport corpora of C08, C09 and C19 and the loop-back corpus of C07 driven through BOTH clients (for C07 also both '
         'dispatchers); every pair is compared with the single model and with each other. quick: a seeded sample of each corpus; '
         'thorough: the full quick corpora plus samples of the thorough ones. distinct = distinct underlying case with the kind flag '
@@ -39,8 +39,11 @@ def generate(seed, tier):
                 seen.add(k)
                 out.append(strip(c, keys))
         rnd.shuffle(out)
-        for c in out[:n]:
+        for i, c in enumerate(out[:n]):
             cases.append({'src': label, 'c': c})
+            if label in ('c01', 'c02', 'c03', 'c12') and i % 3 == 0:
+                # the asynchronous dispatcher serving PLAIN functions against the synchronous one
+                cases.append({'src': label, 'c': c, 'b': 'plain'})
     sample(c01, 'c01')
     sample(c02, 'c02')
     sample(c03, 'c03')
@@ -64,7 +67,7 @@ def observe(case):
         b = mod.observe(dict(c, casync=True, dasync=True))
     else:
         a = mod.observe(dict(c, **{'async': False}))
-        b = mod.observe(dict(c, **{'async': True}))
+        b = mod.observe(dict(c, **{'async': case.get('b', True)}))
     return (a, b)
 
 
